@@ -2,6 +2,7 @@
 counterexample concretely (in-process, then on the untouched /repo with /venv/bin/python), validates the
 translation, matches known findings, writes evidence.  Exit codes: 0 held, 1 VIOLATION, 2 inconclusive/harness error."""
 import os, sys, json, time, random, signal, hashlib, subprocess, traceback, contextlib, multiprocessing, builtins
+import ctypes
 import z3
 from . import ir, core, loader
 from .core import SymInt, SymBool, SymBytes, Leak
@@ -84,6 +85,8 @@ def sym_outcome(fn, *a):
         return ('noclaim',)
     except Leak:
         raise
+    except (RecursionError, MemoryError, z3.Z3Exception, ctypes.ArgumentError) as e:
+        raise Leak('engine-internal %s: %s' % (type(e).__name__, str(e)[:100]))       # never an outcome of the code under test
     except Exception as e:
         return ('exc', type(e).__name__, str(e)[:120])
 
@@ -299,22 +302,40 @@ def run_shape(case, shape, tier, seed):
             res['status'] = 'noclaim'
             return res
         res['nvars'] = len(src.vars)
-        cm = case.stubs(shape) or contextlib.nullcontext()
-
         def body():
             io = sym_outcome(case.impl, shape, args)
             so = sym_outcome(case.spec, shape, args)
             return io, so
-        with cm:
-            paths = core.explore(body, assumptions=src.assumptions, max_paths=case.max_paths if hasattr(case, 'max_paths') else 4000)
-        case.symbolic = False
-        res['paths'] = len(paths)
-        res['forks'] = core.CTX.nforks
-        res['branch_checks'] = core.CTX.nchecks
-        if not paths:
-            res['status'] = 'inconclusive'
-            res['reason'] = 'vacuous: no feasible path (assumptions unsatisfiable?)'
-            return res
+
+        def lazy_paths():
+            """paths are explored in growing chunks (stubs active, case in symbolic mode) and handed out one by one (stubs off,
+            concrete mode) so that a shape stops at its first reproduced counterexample instead of enumerating every path"""
+            gen = core.explore_iter(body, assumptions=src.assumptions, max_paths=case.max_paths if hasattr(case, 'max_paths') else 4000)
+            n = 4
+            try:
+                while True:
+                    chunk = []
+                    case.symbolic = True
+                    try:
+                        with (case.stubs(shape) or contextlib.nullcontext()):
+                            for p in gen:
+                                chunk.append(p)
+                                if len(chunk) >= n:
+                                    break
+                    finally:
+                        case.symbolic = False
+                        res['forks'] = core.CTX.nforks
+                        res['branch_checks'] = core.CTX.nchecks
+                    if not chunk:
+                        return
+                    res['paths'] += len(chunk)
+                    for p in chunk:
+                        yield p
+                    n *= 4
+            finally:
+                gen.close()
+                case.symbolic = False
+        paths = lazy_paths()
         nval = 0
         for pi, p in enumerate(paths):
             io, so = p.value
@@ -365,7 +386,7 @@ def run_shape(case, shape, tier, seed):
             res['solver_s'] += dt
             if len(res['samples']) < 3:
                 res['samples'].append({'obligation': '%s path %d/%d: impl %s must satisfy spec %s' % (
-                    case.describe(shape), pi + 1, len(paths), _odesc(io), _odesc(so)),
+                    case.describe(shape), pi + 1, res['paths'], _odesc(io), _odesc(so)),
                     'free_vars': len(src.vars), 'path_condition_atoms': len(p.pc), 'verdict': r,
                     'goal': 'syntactically identical terms' if ir.isc(goal) and goal.a == 1 else ir.describe(goal, 2),
                     'solver_s': round(dt, 4)})
@@ -404,6 +425,10 @@ def run_shape(case, shape, tier, seed):
             if res['status'] == 'pass':
                 res['status'] = 'inconclusive'
                 res['reason'] = 'solver %s and no concrete counterexample reproduced (path %d)' % (r, pi)
+        paths.close()
+        if res['paths'] == 0:
+            res['status'] = 'inconclusive'
+            res['reason'] = 'vacuous: no feasible path (assumptions unsatisfiable?)'
     except JobTimeout:
         res['status'] = 'inconclusive'
         res['reason'] = 'shape budget of %ds exceeded' % case.timeout_s
@@ -501,15 +526,41 @@ def hard_limit(w):
     return (c.timeout_s * (4 if w[2] == 'thorough' else 1)) * 1.5 + 120
 
 
+FAILFAST = int(os.environ.get('VERIF_FAILFAST', '12') or 12)
+OVERRUNS = int(os.environ.get('VERIF_OVERRUNS', '16') or 16)
+
+
 def run_pool(work, nproc, verbose=False):
     """own process pool: a job that overruns its hard limit (z3 not returning) gets its worker killed and is
-    reported inconclusive - never a silent pass, never a hang"""
+    reported inconclusive - never a silent pass, never a hang.  Once FAILFAST shapes have produced a counterexample that is
+    not a listed known finding, the shapes not yet started are not run (reported as such): the verdict is already a violation."""
     import queue
+    kf = known_findings()
+    nviol = [0]
+    nover = [0]
+    stopped = [False]
     ctx = multiprocessing.get_context('fork')
     tasks, out = ctx.Queue(), ctx.Queue()
     for i, w in enumerate(work):
         tasks.put((i, w))
     procs = {}
+
+    def maybe_stop():
+        if (nviol[0] >= FAILFAST or nover[0] >= OVERRUNS) and not stopped[0]:
+            stopped[0] = True
+            why = 'fail-fast after %d shapes with counterexamples' % nviol[0] if nviol[0] >= FAILFAST else \
+                'gave up after %d shapes exceeded their time or path budget (the run is inconclusive, never a pass)' % nover[0]
+            while True:
+                try:
+                    t = tasks.get(timeout=0.2)
+                except queue.Empty:
+                    break
+                if t is None:
+                    continue
+                w = work[t[0]]
+                results[t[0]] = dict(case=w[0], shape=w[1], status='inconclusive', reason='not run: ' + why,
+                                     obligations=0, discharged=0, identical=0, paths=0, forks=0, branch_checks=0, solver_s=0.0, nvars=0, candidates=[],
+                                     validations=[], samples=[], queries=0, wall_s=0.0, kind='?', prop=_CASES[w[0]].prop)
 
     def spawn():
         p = ctx.Process(target=_worker, args=(tasks, out), daemon=True)
@@ -530,6 +581,12 @@ def run_pool(work, nproc, verbose=False):
             else:
                 running.pop(m[2], None)
                 results[m[1]] = m[3]
+                r = m[3]
+                if r['status'] == 'violation' and r['candidates'] and match_known(kf, r['prop'], r['case'], r['shape'], r['candidates'][0].get('observable')) is None:
+                    nviol[0] += 1
+                if r['status'] == 'inconclusive' and ('budget' in str(r.get('reason')) or 'more than' in str(r.get('reason'))):
+                    nover[0] += 1
+                maybe_stop()
                 if verbose:
                     r = m[3]
                     print('  [%s] %s %s %.1fs %s' % (r['status'], r['case'], json.dumps(r['shape'], sort_keys=True), r.get('wall_s', 0), r.get('reason') or ''), flush=True)
@@ -551,6 +608,8 @@ def run_pool(work, nproc, verbose=False):
                 results[idx] = dict(case=w[0], shape=w[1], status='inconclusive', reason=why, obligations=0, discharged=0, identical=0,
                                     paths=0, forks=0, branch_checks=0, solver_s=0.0, nvars=0, candidates=[], validations=[], samples=[],
                                     queries=0, wall_s=round(now - t0, 1), kind='?', prop=_CASES[w[0]].prop)
+                nover[0] += 1
+                maybe_stop()
                 if verbose:
                     print('  [killed] %s %s' % (w[0], json.dumps(w[1], sort_keys=True)), flush=True)
                 spawn()
@@ -689,8 +748,12 @@ def finish(prop, tier, seed, results, t0):
         print('VIOLATION property=%s replay=%s' % (prop, path))
         print('  case=%s shape=%s observable=%s impl=%s spec=%s' % (r['case'], json.dumps(r['shape'], sort_keys=True), obs,
                                                                   json.dumps(o.get('impl'))[:160], json.dumps(o.get('spec'))[:160]))
+    notrun = [r for r in inconcl if str(r.get('reason')).startswith('not run:')]
     for r in inconcl:
-        print('INCONCLUSIVE property=%s case=%s shape=%s: %s' % (prop, r['case'], json.dumps(r['shape'], sort_keys=True), r.get('reason')))
+        if r not in notrun:
+            print('INCONCLUSIVE property=%s case=%s shape=%s: %s' % (prop, r['case'], json.dumps(r['shape'], sort_keys=True), r.get('reason')))
+    if notrun:
+        print('INCONCLUSIVE property=%s: %d shapes %s' % (prop, len(notrun), notrun[0]['reason']))
     write_evidence(prop, tier, seed, results, violations, knowns, inconcl, nvalid, time.time() - t0)
     npass = sum(1 for r in results if r['status'] == 'pass')
     print('%s %s: shapes=%d pass=%d known=%d violation=%d inconclusive=%d obligations=%d discharged=%d validated=%d wall=%.1fs' % (
